@@ -35,6 +35,17 @@ Value level (abstracted exactly as `HeapOps` abstracts it)
     for the call sites concerned (keyed by source text; a site not listed passes `tag` on).  A wrong entry breaks the
     equality proof, not soundness.
 
+Scalars outside the identity state
+  `Bar.default_channel` (source commit f9ef398) is a scalar attribute that `HeapOps.BarCell` does not have.  It is treated
+  as VALUE LEVEL: the store `self.default_channel = default_channel` is accepted only because the stored expression is a
+  scalar (an int / None parameter — checked; an object reference would be refused), and is not part of the heap; a read of
+  it is a value-level result.  Its only use is `channel=default_channel` of the TIME_SIGNATURE `Message(...)` that
+  `Bar.__init__` inserts: a `Message(...)` call with a value-level argument takes the VALUE of the new message from the
+  oracle (`ORACLE_MESSAGES`, keyed by the source text of the call: `g.orc.tsMsg numerator denominator`) — exactly the
+  abstraction of `HeapOps.barFinish`.  The allocation and what happens to the reference are translated as before.
+  (Limit of that abstraction, unchanged: `tsMsg` is keyed by numerator and denominator only, so one oracle describes
+  histories in which bars of equal signature have equal default channel; through the operations of `HOp` every bar has 0.)
+
 Aliasing of raw Python lists
   A list VALUE is sound only while the list object has one owner.  The translator enforces: `_messages` is assigned only
   a fresh list (`[]`, a comprehension, `copy.copy(…)`); `.append` / `.extend` on a local requires a local that was initialised
@@ -88,6 +99,17 @@ FIELDS = {
     "Cmp": {"tracks": (None, "List Trk")},
 }
 FIELDS["AbsView"] = FIELDS["RelView"] = FIELDS["View"]
+# scalar attributes that the cells of HeapOps do not model (see "Scalars outside the identity state" in the module docstring):
+# cell type -> attribute names.  A store is accepted only if the stored expression is a scalar (Int / None / value level);
+# a read is a value-level result.
+UNMODELLED_SCALARS = {"Bar": {"default_channel"}}
+# `Message(...)` calls with a value-level argument: the VALUE of the new message comes from the oracle, as in HeapOps
+# (qualified function, source text of the call) -> Lean template over the exactly translated keyword arguments
+ORACLE_MESSAGES = {
+    ("Bar.__init__", "Message(message_type=MessageType.TIME_SIGNATURE, channel=default_channel, "
+                     "numerator=self.time_signature_numerator, denominator=self.time_signature_denominator)"):
+        "g.orc.tsMsg {numerator} {denominator}",
+}
 # list attributes that take over the caller's list object (see the module docstring)
 BY_VALUE_LISTS = {("Trk", "bars"), ("Cmp", "tracks")}
 
@@ -97,7 +119,7 @@ ANNOT = {"int": "Int", "bool": "Bool", "Message": "Msg", "Sequence": "Seq", "Abs
          "list[Sequence]": "List Seq", "list[RelativeSequence]": "List RelView", "[Bar]": "List Bar", "[Track]": "List Trk",
          "list[int]": "Val"}
 PARAM = {("AbstractSequence", "messages"): "List Msg", ("AbsoluteSequence", "messages"): "List Msg",
-         ("RelativeSequence", "messages"): "List Msg", ("Bar", "key"): "Int", ("Bar", "default_channel"): "Int",
+         ("RelativeSequence", "messages"): "List Msg", ("Bar", "key"): "Int", ("Bar", "default_channel"): "Val",
          ("RelativeSequence", "index"): "Opt Int", ("Sequence", "index"): "Opt Int", ("Sequence", "msg"): "Msg",
          ("Sequence", "padding_length"): "Val", ("Sequence", "capacities"): "Val", ("Sequence", "note_values"): "Val",
          ("Sequence", "standard_length"): "Val", ("Sequence", "do_not_extend"): "Val"}
@@ -282,6 +304,8 @@ class FnTranslator:
 
     # ---------------------------------------------------------------- expressions
     def field(self, obj, obj_t, attr, ind):
+        if attr in UNMODELLED_SCALARS.get(obj_t, ()):
+            return None, "Val"
         if obj_t not in FIELDS or attr not in FIELDS[obj_t]:
             raise Untranslatable(f"{self.qual}: attribute {attr} of a {obj_t}")
         lf, ft = FIELDS[obj_t][attr]
@@ -519,6 +543,25 @@ class FnTranslator:
         owner = self.reg.resolve(cls, "__init__")
         if owner is None:
             raise Untranslatable(f"{self.qual}: {cls} has no __init__")
+        if cls == "Message" and (self.qual, ast.unparse(node)) in ORACLE_MESSAGES:
+            # a value-level argument: the value of the new message is the oracle's; the allocation is translated
+            self.reg.get(owner, "__init__")
+            if args:
+                raise Untranslatable(f"{self.qual}: positional arguments in {ast.unparse(node)}")
+            vals = {}
+            for kw in kws:
+                v, ty = self.expr(kw.value, ind)
+                if ty not in ("Int", "Val", "MType", "None"):
+                    raise Untranslatable(f"{self.qual}: a {ty} as argument {kw.arg} of {ast.unparse(node)}")
+                vals[kw.arg] = v
+            tmpl = ORACLE_MESSAGES[(self.qual, ast.unparse(node))]
+            try:
+                val = tmpl.format(**{k: v for k, v in vals.items() if v is not None})
+            except KeyError as e:
+                raise Untranslatable(f"{self.qual}: the oracle entry of {ast.unparse(node)} needs the argument {e} exactly")
+            r = self.new()
+            self.emit(ind, f"let {r} ← HM.alloc (fun h => h.newMsg ({val}))")
+            return r, t
         name, sig, ret = self.reg.get(owner, "__init__")
         a = self.bind_args(owner, "__init__", args, kws, ast.unparse(node), ind)     # arguments are evaluated before the allocation
         r = self.new()
@@ -702,6 +745,12 @@ class FnTranslator:
         if ot.startswith("Opt "):
             obj = self.coerce(obj, ot, ot[4:], ind, src)
             ot = ot[4:]
+        if tgt.attr in UNMODELLED_SCALARS.get(ot, ()):
+            v, t = self.expr(value, ind)
+            if t not in ("Int", "Val", "None"):
+                raise Untranslatable(f"{self.qual}: `{src}` stores a {t} into the scalar attribute {tgt.attr} (not part of the identity state)")
+            self.comment(ind, f"({tgt.attr}: a scalar attribute outside the identity state; the stored value is a scalar)")
+            return
         if ot not in FIELDS or tgt.attr not in FIELDS[ot]:
             raise Untranslatable(f"{self.qual}: store into {ast.unparse(tgt)} (a {ot})")
         lf, ft = FIELDS[ot][tgt.attr]
